@@ -1,0 +1,450 @@
+//! Verification shim, compiled only with `--cfg kanal_verif`.
+//!
+//! Files of the crate that contain `#[cfg(kanal_verif)] use crate::verif::{core, std};`
+//! resolve `core::sync::atomic::*`, `std::thread::*` and `std::time::Instant`
+//! to the items below instead of the real ones.  With no handler installed
+//! every item is a transparent pass-through to the real implementation.
+//! With a handler installed (by the external verification harness) every
+//! shared-memory access, park/unpark, yield, sleep and clock reading of the
+//! crate is reported to it as an event, and the handler decides when the
+//! calling thread may perform it (deterministic scheduling) and what the
+//! clock reads (virtual time).
+#![allow(missing_docs, missing_debug_implementations, dead_code)]
+
+use ::core::panic::Location;
+use ::core::sync::atomic::{AtomicPtr, Ordering as RealOrdering};
+use ::std::cell::Cell;
+
+/// Kind of an event reported to the handler.
+#[derive(Clone, Copy, Debug, PartialEq, Eq)]
+#[repr(u8)]
+pub enum Kind {
+    Load,
+    Store,
+    Cas,
+    Fence,
+    Park,
+    Unpark,
+    Yield,
+    Sleep,
+    Now,
+    /// explicit non-atomic access or life-cycle marker, see `access`
+    Access,
+}
+
+/// Sub-kinds of `Kind::Access` events (argument `what` of [`access`]).
+pub mod acc {
+    pub const CS_ENTER: u8 = 1;
+    pub const SLOT_READ: u8 = 2;
+    pub const SLOT_WRITE: u8 = 3;
+    pub const WAKER_READ: u8 = 4;
+    pub const WAKER_WRITE: u8 = 5;
+    pub const SIG_PUBLISH: u8 = 6;
+    pub const SIG_END: u8 = 7;
+    pub const WAKE_CALL: u8 = 8;
+    pub const CS_EXIT: u8 = 9;
+    pub const WAKER_KIND: u8 = 10;
+}
+
+/// One event.  `addr` identifies the location (address of the atomic, or of
+/// the signal for `Access`), `a`/`b` are operands (stored value, expected /
+/// new value, target thread, access sub-kind), `ord`/`ord2` the orderings
+/// passed by the caller (0 Relaxed, 1 Release, 2 Acquire, 3 AcqRel, 4 SeqCst,
+/// 9 none), `width` is 1 for `AtomicBool`, 8 for `AtomicU8`.
+#[derive(Clone, Copy, Debug)]
+pub struct Ev {
+    pub kind: Kind,
+    pub addr: usize,
+    pub a: u64,
+    pub b: u64,
+    pub ord: u8,
+    pub ord2: u8,
+    pub width: u8,
+    pub file: &'static str,
+    pub line: u32,
+}
+
+/// Installed by the harness.
+pub trait Handler: Sync + Send {
+    /// Called before `ev` is performed by the thread with virtual id `vtid`
+    /// (`None`: a thread the harness does not manage).  The handler calls
+    /// `perform` (at most once) when the thread may go on; its return value
+    /// is the value read / previous value / 1 for a successful CAS etc.  The
+    /// value returned by `op` is what the shim hands back to the crate.
+    fn op(&self, vtid: Option<usize>, ev: &Ev, perform: &mut dyn FnMut() -> u64) -> u64;
+    /// `Some(n)`: answer of `available_parallelism`.
+    fn parallelism(&self) -> Option<usize>;
+    /// `true`: `Instant::now()` is answered by `op` (event `Now`, value in
+    /// nanoseconds) instead of the real clock.
+    fn virtual_time(&self) -> bool;
+}
+
+static HANDLER: AtomicPtr<Box<dyn Handler>> = AtomicPtr::new(::core::ptr::null_mut());
+
+thread_local! {
+    static VTID: Cell<Option<usize>> = const { Cell::new(None) };
+}
+
+/// Installs the handler for the rest of the process (leaked).
+pub fn install(h: Box<dyn Handler>) {
+    let p = Box::into_raw(Box::new(h));
+    HANDLER.store(p, RealOrdering::SeqCst);
+}
+
+/// Declares the calling thread as managed thread `v` (or unmanaged).
+pub fn set_vtid(v: Option<usize>) {
+    VTID.with(|c| c.set(v));
+}
+
+/// Virtual id of the calling thread.
+pub fn vtid() -> Option<usize> {
+    VTID.with(|c| c.get())
+}
+
+#[inline(always)]
+fn handler() -> Option<&'static dyn Handler> {
+    let p = HANDLER.load(RealOrdering::Acquire);
+    if p.is_null() {
+        None
+    } else {
+        // Safety: installed boxes are leaked and never freed
+        Some(unsafe { &**p })
+    }
+}
+
+#[inline(always)]
+fn ord_code(o: RealOrdering) -> u8 {
+    match o {
+        RealOrdering::Relaxed => 0,
+        RealOrdering::Release => 1,
+        RealOrdering::Acquire => 2,
+        RealOrdering::AcqRel => 3,
+        RealOrdering::SeqCst => 4,
+        _ => 8,
+    }
+}
+
+#[inline(always)]
+#[track_caller]
+fn report(
+    kind: Kind,
+    addr: usize,
+    a: u64,
+    b: u64,
+    ord: u8,
+    ord2: u8,
+    width: u8,
+    perform: &mut dyn FnMut() -> u64,
+) -> u64 {
+    match handler() {
+        None => perform(),
+        Some(h) => {
+            let l = Location::caller();
+            let ev = Ev {
+                kind,
+                addr,
+                a,
+                b,
+                ord,
+                ord2,
+                width,
+                file: l.file(),
+                line: l.line(),
+            };
+            h.op(vtid(), &ev, perform)
+        }
+    }
+}
+
+/// Explicit event for accesses that are not calls into `core`/`std`
+/// (slot / waker-field reads and writes, critical-section entry, signal
+/// publication and end of life).
+#[inline(always)]
+#[track_caller]
+pub fn access(what: u8, addr: usize) {
+    report(Kind::Access, addr, what as u64, 0, 9, 9, 0, &mut || 0);
+}
+
+pub mod core {
+    pub use ::core::*;
+    pub mod sync {
+        pub use ::core::sync::*;
+        pub mod atomic {
+            use super::super::super::{ord_code, report, Kind};
+            pub use ::core::sync::atomic::*;
+
+            #[repr(transparent)]
+            pub struct AtomicU8 {
+                inner: ::core::sync::atomic::AtomicU8,
+            }
+            impl AtomicU8 {
+                #[inline(always)]
+                pub const fn new(v: u8) -> Self {
+                    Self {
+                        inner: ::core::sync::atomic::AtomicU8::new(v),
+                    }
+                }
+                #[inline(always)]
+                #[track_caller]
+                pub fn load(&self, o: Ordering) -> u8 {
+                    report(
+                        Kind::Load,
+                        self as *const _ as usize,
+                        0,
+                        0,
+                        ord_code(o),
+                        9,
+                        8,
+                        &mut || self.inner.load(o) as u64,
+                    ) as u8
+                }
+                #[inline(always)]
+                #[track_caller]
+                pub fn store(&self, v: u8, o: Ordering) {
+                    report(
+                        Kind::Store,
+                        self as *const _ as usize,
+                        v as u64,
+                        0,
+                        ord_code(o),
+                        9,
+                        8,
+                        &mut || {
+                            self.inner.store(v, o);
+                            0
+                        },
+                    );
+                }
+                /// Result encoding towards the handler: `256 + old` on
+                /// success, `old` on failure.
+                #[inline(always)]
+                #[track_caller]
+                pub fn compare_exchange(
+                    &self,
+                    cur: u8,
+                    new: u8,
+                    s: Ordering,
+                    f: Ordering,
+                ) -> Result<u8, u8> {
+                    let r = report(
+                        Kind::Cas,
+                        self as *const _ as usize,
+                        cur as u64,
+                        new as u64,
+                        ord_code(s),
+                        ord_code(f),
+                        8,
+                        &mut || match self.inner.compare_exchange(cur, new, s, f) {
+                            Ok(v) => 256 + v as u64,
+                            Err(v) => v as u64,
+                        },
+                    );
+                    if r >= 256 {
+                        Ok((r - 256) as u8)
+                    } else {
+                        Err(r as u8)
+                    }
+                }
+            }
+
+            #[repr(transparent)]
+            pub struct AtomicBool {
+                inner: ::core::sync::atomic::AtomicBool,
+            }
+            impl AtomicBool {
+                #[inline(always)]
+                pub const fn new(v: bool) -> Self {
+                    Self {
+                        inner: ::core::sync::atomic::AtomicBool::new(v),
+                    }
+                }
+                #[inline(always)]
+                #[track_caller]
+                pub fn load(&self, o: Ordering) -> bool {
+                    report(
+                        Kind::Load,
+                        self as *const _ as usize,
+                        0,
+                        0,
+                        ord_code(o),
+                        9,
+                        1,
+                        &mut || self.inner.load(o) as u64,
+                    ) != 0
+                }
+                #[inline(always)]
+                #[track_caller]
+                pub fn store(&self, v: bool, o: Ordering) {
+                    report(
+                        Kind::Store,
+                        self as *const _ as usize,
+                        v as u64,
+                        0,
+                        ord_code(o),
+                        9,
+                        1,
+                        &mut || {
+                            self.inner.store(v, o);
+                            0
+                        },
+                    );
+                }
+                #[inline(always)]
+                #[track_caller]
+                pub fn compare_exchange(
+                    &self,
+                    cur: bool,
+                    new: bool,
+                    s: Ordering,
+                    f: Ordering,
+                ) -> Result<bool, bool> {
+                    let r = report(
+                        Kind::Cas,
+                        self as *const _ as usize,
+                        cur as u64,
+                        new as u64,
+                        ord_code(s),
+                        ord_code(f),
+                        1,
+                        &mut || match self.inner.compare_exchange(cur, new, s, f) {
+                            Ok(v) => 256 + v as u64,
+                            Err(v) => v as u64,
+                        },
+                    );
+                    if r >= 256 {
+                        Ok(r - 256 != 0)
+                    } else {
+                        Err(r != 0)
+                    }
+                }
+            }
+
+            #[inline(always)]
+            #[track_caller]
+            pub fn fence(o: Ordering) {
+                report(Kind::Fence, 0, 0, 0, ord_code(o), 9, 0, &mut || {
+                    ::core::sync::atomic::fence(o);
+                    0
+                });
+            }
+        }
+    }
+}
+
+pub mod std {
+    pub use ::std::*;
+    pub mod thread {
+        use super::super::{handler, report, vtid, Kind};
+        pub use ::std::thread::*;
+
+        /// Thread handle that remembers the virtual id of a managed thread.
+        #[derive(Clone, Debug)]
+        pub struct Thread {
+            real: ::std::thread::Thread,
+            vtid: Option<usize>,
+        }
+        impl Thread {
+            #[inline(always)]
+            #[track_caller]
+            pub fn unpark(&self) {
+                match (handler(), self.vtid) {
+                    (Some(_), Some(t)) => {
+                        report(Kind::Unpark, 0, t as u64, 0, 9, 9, 0, &mut || 0);
+                    }
+                    _ => self.real.unpark(),
+                }
+            }
+        }
+
+        #[inline(always)]
+        pub fn current() -> Thread {
+            Thread {
+                real: ::std::thread::current(),
+                vtid: vtid(),
+            }
+        }
+
+        #[inline(always)]
+        #[track_caller]
+        pub fn park() {
+            match (handler(), vtid()) {
+                (Some(_), Some(_)) => {
+                    report(Kind::Park, 0, 0, 0, 9, 9, 0, &mut || 0);
+                }
+                _ => ::std::thread::park(),
+            }
+        }
+
+        #[inline(always)]
+        #[track_caller]
+        pub fn yield_now() {
+            match (handler(), vtid()) {
+                (Some(_), Some(_)) => {
+                    report(Kind::Yield, 0, 0, 0, 9, 9, 0, &mut || 0);
+                }
+                _ => ::std::thread::yield_now(),
+            }
+        }
+
+        #[inline(always)]
+        #[track_caller]
+        pub fn sleep(d: ::core::time::Duration) {
+            match (handler(), vtid()) {
+                (Some(_), Some(_)) => {
+                    report(Kind::Sleep, 0, d.as_nanos() as u64, 0, 9, 9, 0, &mut || 0);
+                }
+                _ => ::std::thread::sleep(d),
+            }
+        }
+
+        #[inline(always)]
+        pub fn available_parallelism() -> ::std::io::Result<::core::num::NonZeroUsize> {
+            if let Some(h) = handler() {
+                if let Some(n) = h.parallelism() {
+                    return Ok(::core::num::NonZeroUsize::new(n.max(1)).unwrap());
+                }
+            }
+            ::std::thread::available_parallelism()
+        }
+    }
+    pub mod time {
+        use super::super::{handler, report, Kind};
+        pub use ::std::time::*;
+
+        #[derive(Clone, Copy, Debug, PartialEq, Eq, PartialOrd, Ord)]
+        enum Inner {
+            Real(::std::time::Instant),
+            Virt(u64),
+        }
+
+        /// Either a real `Instant` or a virtual clock reading in nanoseconds.
+        #[derive(Clone, Copy, Debug, PartialEq, Eq, PartialOrd, Ord)]
+        pub struct Instant(Inner);
+
+        impl Instant {
+            #[inline(always)]
+            #[track_caller]
+            pub fn now() -> Instant {
+                match handler() {
+                    Some(h) if h.virtual_time() => {
+                        Instant(Inner::Virt(report(Kind::Now, 0, 0, 0, 9, 9, 0, &mut || 0)))
+                    }
+                    _ => Instant(Inner::Real(::std::time::Instant::now())),
+                }
+            }
+            #[inline(always)]
+            pub fn checked_add(&self, d: Duration) -> Option<Instant> {
+                match self.0 {
+                    Inner::Real(i) => i.checked_add(d).map(|i| Instant(Inner::Real(i))),
+                    Inner::Virt(v) => {
+                        let n = d.as_nanos();
+                        if n > u64::MAX as u128 {
+                            return None;
+                        }
+                        v.checked_add(n as u64).map(|v| Instant(Inner::Virt(v)))
+                    }
+                }
+            }
+        }
+    }
+}
